@@ -20,7 +20,12 @@ func otherHost(h string) string {
 // tgtFor renders where a writing call points, relative to src (the place the
 // content / source image was looked up in; nil = none): the same repository, a
 // different repository on the same registry, the other registry, a layout, a
-// repository / layout directory that does not exist yet, a reference without tag.
+// repository / layout directory that does not exist yet, a reference without
+// tag. The reference then comes in every form the sandbox accepts: tag only,
+// digest only, tag+digest - the digest being the one of the content that is
+// written (g.match, when the caller knows it) or a different one - each as a
+// string, a reference object, an object built with :tag() / :digest(), or an
+// object derived from another reference's :tag() / :digest().
 func (g *sgen) tgtFor(b *body, src *placeInfo, label string, forceStr bool) string {
 	cs := &b.calls
 	newTag := fmt.Sprintf("w%d-%d", g.si, g.k)
@@ -53,43 +58,109 @@ func (g *sgen) tgtFor(b *body, src *placeInfo, label string, forceStr bool) stri
 	if src != nil && src.p.Kind == "reg" {
 		host = src.p.Host
 	}
-	if !forceStr && g.k > 0 && g.draw(12, label+"_global") == 0 {
+	if !forceStr && g.k > 0 && g.match == "" && g.draw(12, label+"_global") == 0 {
 		b.arg("target=reference-left-by-earlier-statement")
 		p := g.place("", label+"_gp")
 		return "(G_r or " + q(p.p.Base()+":"+newTag) + ")"
 	}
+	var base, tag string
+	var tp *placeInfo // the existing place the target is in (nil = new repository / layout)
 	cls := g.draw(12, label+"_cls")
 	switch {
 	case cls < 2 && src != nil:
 		b.arg("target=same-repo-new-tag")
-		return g.refExpr(src.p.Base(), newTag, "", forceStr, label, cs)
+		base, tag, tp = src.p.Base(), newTag, src
 	case cls < 3 && src != nil:
 		b.arg("target=same-repo-existing-tag")
-		return g.refExpr(src.p.Base(), g.pick(src.tags, label+"_t", "v1"), "", forceStr, label, cs)
-	case cls < 7:
-		if t := other(); t != nil {
-			if g.draw(4, label+"_ex") == 0 {
-				b.arg("target=%s-existing-tag", relation(t))
-				return g.refExpr(t.p.Base(), g.pick(t.tags, label+"_t", "v1"), "", forceStr, label, cs)
-			}
+		base, tag, tp = src.p.Base(), g.pick(src.tags, label+"_t", "v1"), src
+	case cls < 7 && other() != nil:
+		t := other()
+		tp = t
+		if g.draw(4, label+"_ex") == 0 {
+			b.arg("target=%s-existing-tag", relation(t))
+			base, tag = t.p.Base(), g.pick(t.tags, label+"_t", "v1")
+		} else {
 			b.arg("target=%s-new-tag", relation(t))
-			return g.refExpr(t.p.Base(), newTag, "", forceStr, label, cs)
+			base, tag = t.p.Base(), newTag
 		}
-		fallthrough
 	case cls < 8:
 		b.arg("target=new-repo-same-registry")
-		return g.refExpr(host+"/"+fmt.Sprintf("new%d/r%d", g.si, g.k), "t", "", forceStr, label, cs)
+		base, tag = host+"/"+fmt.Sprintf("new%d/r%d", g.si, g.k), "t"
 	case cls < 9:
 		b.arg("target=new-repo-other-registry")
-		return g.refExpr(otherHost(host)+"/"+fmt.Sprintf("new%d/r%d", g.si, g.k), "t", "", forceStr, label, cs)
+		base, tag = otherHost(host)+"/"+fmt.Sprintf("new%d/r%d", g.si, g.k), "t"
 	case cls < 11:
 		b.arg("target=new-layout-directory")
-		return g.refExpr("ocidir://"+RootToken+"/lay/"+fmt.Sprintf("new%d-%d", g.si, g.k), "t", "", forceStr, label, cs)
+		base, tag = "ocidir://"+RootToken+"/lay/"+fmt.Sprintf("new%d-%d", g.si, g.k), "t"
 	default:
 		t := g.place("", label+"_nt")
+		tp = &t
 		b.arg("target=no-tag")
-		return g.refExpr(t.p.Base(), "", "", forceStr, label, cs)
+		base, tag = t.p.Base(), ""
 	}
+	if len(base) > 9 && base[:9] == "ocidir://" {
+		b.arg("target-scheme=ocidir")
+	} else {
+		b.arg("target-scheme=registry")
+	}
+	// digest decoration
+	dig := ""
+	x := g.draw(20, label+"_dg")
+	if g.forceMatch && g.match != "" {
+		x = 12 + g.draw(4, label+"_dgm")
+	}
+	switch {
+	case x < 12:
+		b.arg("target-digest=none")
+	case x < 16:
+		if g.match != "" {
+			dig = g.match
+			b.arg("target-digest=%s", g.matchName())
+		} else {
+			dig = Canon.Man1D
+			if tp != nil {
+				dig = g.pick(tp.mans, label+"_od", Canon.Man1D)
+			}
+			b.arg("target-digest=of-some-manifest")
+		}
+	case x < 18:
+		dig = bogusDigest
+		if tp != nil && g.chance(50, label+"_mm") {
+			dig = g.pick(tp.mans, label+"_od", bogusDigest) // exists at the target, names other content
+			if dig == g.match {
+				dig = bogusDigest
+			}
+		}
+		b.arg("target-digest=mismatching")
+	default:
+		dig = "sha256:not-a-digest"
+		if g.match != "" && g.chance(50, label+"_512") {
+			dig = g.match // kept valid half of the time, with the tag dropped below
+		}
+		if dig == g.match {
+			b.arg("target-digest=%s", g.matchName())
+		} else {
+			b.arg("target-digest=malformed")
+		}
+	}
+	if dig != "" {
+		if tag == "" || x%2 == 0 {
+			tag = ""
+			b.arg("target-form=digest-only")
+		} else {
+			b.arg("target-form=tag+digest")
+		}
+	} else if tag != "" {
+		b.arg("target-form=tag-only")
+	}
+	return g.refExpr(base, tag, dig, forceStr, label, cs)
+}
+
+func (g *sgen) matchName() string {
+	if g.matchLabel != "" {
+		return g.matchLabel
+	}
+	return "matching"
 }
 
 // junk is a value of a type no binding accepts.
@@ -121,6 +192,7 @@ func (g *sgen) blobPutBody() *body {
 		}
 		return fmt.Sprintf("blob.%s(%s, %s)", fn, g.refExpr(pi.p.Base(), g.pick([]string{"", "v1"}, "lt", ""), "", false, "lref", cs), q(d))
 	}
+	g.match, g.matchLabel = d, "blob-digest"
 	text := q(fmt.Sprintf("c19 content %d %d", g.si, g.k))
 	result := `log("blob put " .. tostring(d) .. " " .. tostring(n))`
 	switch x := g.draw(20, "content"); {
@@ -212,6 +284,45 @@ func (g *sgen) manifestPutBody() *body {
 	src := g.refExpr(pi.p.Base(), tag, "", false, "src", cs)
 	method := false // m:put(tgt) instead of manifest.put(m, tgt)
 	m := "m"
+	g.match, g.matchLabel = pi.tagDig[tag], "source-manifest-digest"
+	if g.chance(24, "canonical") {
+		// content whose digest survives the sandbox's re-marshalling (canon.go), put
+		// to a reference that carries exactly that digest
+		var fn string
+		switch g.draw(4, "ck") {
+		case 0:
+			fn = g.pick([]string{"manifest.get", "manifest.getList", "image.manifest", "image.manifestList"}, "cfn", "manifest.get")
+			src = g.refExpr(pi.p.Base(), "canon", "", false, "csrc", cs)
+			g.match = Canon.Man1D
+		case 1:
+			fn = g.pick([]string{"manifest.getList", "image.manifestList"}, "cfn", "manifest.getList")
+			src = g.refExpr(pi.p.Base(), "canonlist", "", false, "csrc", cs)
+			g.match = Canon.IndexD
+		case 2:
+			fn = g.pick([]string{"manifest.get", "manifest.getList"}, "cfn", "manifest.get")
+			src = g.refExpr(pi.p.Base(), "", Canon.Man2D, false, "csrc", cs)
+			g.match = Canon.Man2D
+		default:
+			fn = "manifest.get" // resolves this machine's platform (linux/amd64) out of the list
+			src = g.refExpr(pi.p.Base(), "canonlist", "", false, "csrc", cs) + ", \"linux/amd64\""
+			g.match = Canon.Man1D
+		}
+		g.matchLabel, g.forceMatch = "matching", true
+		b.arg("manifest=canonical-from-%s", fn)
+		b.add("local m = %s(%s)", fn, src)
+		b.call(fn)
+		if g.chance(45, "meth") {
+			b.arg("form=method")
+			b.add("m:put(%s)", g.tgtFor(b, &pi, "tgt", false))
+			b.call("manifest:put")
+		} else {
+			b.arg("form=function")
+			b.add("manifest.put(m, %s)", g.tgtFor(b, &pi, "tgt", false))
+			b.call("manifest.put")
+		}
+		b.add(`log("manifest put")`)
+		return b
+	}
 	switch x := g.draw(20, "mkind"); {
 	case x < 2:
 		b.arg("manifest=from-manifest.get")
@@ -311,6 +422,7 @@ func (g *sgen) copyBody() *body {
 	switch x := g.draw(12, "skind"); {
 	case x < 7:
 		b.arg("source=reference")
+		g.match = pi.tagDig[tag] // a copy keeps the bytes: the target may name the source's digest
 	case x < 8:
 		b.arg("source=reference-by-digest")
 		src = g.refExpr(pi.p.Base(), "", g.pick(pi.mans, "sd", bogusDigest), false, "srcd", cs)
@@ -386,8 +498,17 @@ func (g *sgen) tagDeleteBody() *body {
 		b.arg("ref=by-digest")
 		b.add("tag.delete(%s)", g.refExpr(pi.p.Base(), "", g.pick(pi.mans, "d", bogusDigest), false, "ref", cs))
 	case x < 9:
-		b.arg("ref=no-tag")
-		b.add("tag.delete(%s)", g.refExpr(pi.p.Base(), "", "", false, "ref", cs))
+		switch g.draw(3, "td") {
+		case 0:
+			b.arg("ref=no-tag")
+			b.add("tag.delete(%s)", g.refExpr(pi.p.Base(), "", "", false, "ref", cs))
+		case 1:
+			b.arg("ref=tag+digest-matching")
+			b.add("tag.delete(%s)", g.refExpr(pi.p.Base(), tag, pi.tagDig[tag], false, "ref", cs))
+		default:
+			b.arg("ref=tag+digest-mismatching")
+			b.add("tag.delete(%s)", g.refExpr(pi.p.Base(), tag, g.pick(pi.mans, "od", bogusDigest), false, "ref", cs))
+		}
 	case x < 10:
 		fn := g.pick([]string{"manifest.head", "manifest.getList"}, "fn", "manifest.head")
 		b.arg("ref=manifest-object")
@@ -412,6 +533,19 @@ func (g *sgen) manifestDeleteBody() *body {
 	pi := g.place("", "spl")
 	tag := g.tagOf(pi, "st")
 	src := g.refExpr(pi.p.Base(), tag, "", false, "src", cs)
+	switch g.draw(8, "rform") {
+	case 0:
+		b.arg("ref=digest-only")
+		src = g.refExpr(pi.p.Base(), "", g.pick(pi.mans, "rd", bogusDigest), false, "src", cs)
+	case 1:
+		b.arg("ref=tag+digest-matching")
+		src = g.refExpr(pi.p.Base(), tag, pi.tagDig[tag], false, "src", cs)
+	case 2:
+		b.arg("ref=tag+digest-mismatching")
+		src = g.refExpr(pi.p.Base(), tag, g.pick(pi.mans, "rd", bogusDigest), false, "src", cs)
+	default:
+		b.arg("ref=tag-only")
+	}
 	fns := []string{"manifest.head", "manifest.getList", "manifest.get", "image.manifestHead", "image.manifestList", "image.manifest"}
 	fn := g.pick(fns, "how", "manifest.head")
 	b.add("local m = %s(%s)", fn, src)
@@ -448,6 +582,7 @@ func (g *sgen) manifestDeleteBody() *body {
 
 func (g *sgen) importBody() *body {
 	b := &body{kind: "image.importTar", mut: "image.importTar"}
+	g.match = ImportManifestDigest
 	tgt := g.tgtFor(b, nil, "tgt", false)
 	switch x := g.draw(14, "file"); {
 	case x < 9:
